@@ -36,7 +36,7 @@ var Torture = []string{
 	"<?php $a = $b + $c * $d ** $e ** $f - -$g . !$h instanceof I; $a = $b ? $c : $d ? $e : $f; $a = $b ?: $c; $a = $b ?? $c ?? $d; $a and $b or $c xor $d; $a = $b and $c; $a && $b || $c; $a | $b ^ $c & $d; $a << 1 >> 2; $a <=> $b; $a == $b; $a != $b; $a <> $b; $a === $b; $a !== $b; $a < $b; $a <= $b; $a > $b; $a >= $b; $a % $b / $c; @$a; ~$a; +$a; $a++; $a--; ++$a; --$a; print $a . $b; $a = &$b; $a = &new B; $a += 1; $a -= 1; $a *= 1; $a /= 1; $a .= 1; $a %= 1; $a &= 1; $a |= 1; $a ^= 1; $a <<= 1; $a >>= 1; $a **= 1; $a ??= 1;",
 	"<?php __CLASS__; __DIR__; __FILE__; __FUNCTION__; __LINE__; __NAMESPACE__; __METHOD__; __TRAIT__; __class__; TRUE; null; A; \\A; namespace\\A; A::class; static::class; $a::class;", "<?php ECHO 1; Function F() {} CLASS a {} IF (1): ENDIF; New A; ARRAY(); LIST($a) = $b; PRINT 1; eXiT; DIE; Include 'a'; cfunction g() {} InstanceOf; AND; Or; xOR;",
 	"<?php \x01 \x7f \xff\xfe ` \\ ", "<?php $\xe4\xf6 = 1; \xe4(); class \xc3\xa9 {}", "<?php @ # \n $ % ^ & * ( ) _ + = - [ ] { } | ; : , . < > / ? ~", "<?php $", "<?php $$", "<?php $1", "<?php ${", "<?php ${a", "<?php \"${", "<?php \"${a", "<?php \"{$", "<?php \"{$a", "<?php \"$a[", "<?php \"$a[0", "<?php \"$a->", "<?php '", "<?php \"", "<?php `", "<?php <<<", "<?php <<<A", "<?php <<<A\n", "<?php <<<'A", "<?php <<<'A'\n", "<?php <<<\"A\"\nx",
-	"<?php function f() { return 1 } echo 2;", "<?php echo 1; ) ; echo 2;", "<?php echo 1; ] ; echo 2;", "<?php $x = ; echo 2;", "<?php foo( ; echo 2;", "<?php class A { function } function g(){}", "<?php if ($a { echo 1; } echo 2;", "<?php foreach($a as &$k=>$v){}", "<?php trait T extends A implements B {}", "<?php foreach($a as &$k=>$v) if(1){} \x01 ;",
+	"<?php function f() { return 1 } echo 2;", "<?php echo 1; ) ; echo 2;", "<?php echo 1; ] ; echo 2;", "<?php $x = ; echo 2;", "<?php foo( ; echo 2;", "<?php class A { function } function g(){}", "<?php if ($a { echo 1; } echo 2;", "<?php foreach($a as &$k=>$v){}", "<?php foreach([1] as &$k=>$v){}", "<?php foreach($a + $b as &$k=>&$v): endforeach;", "<?php foreach(array(1) as &$k=>$v) if(1){} \x01 ;", "<?php function f(...$a = 1) {}", "<?php function f(&...$a = 1, ...$b = 2) {}", "<?php $a = 'abc;", "<?php $a = 'abc'; '", "<?php $a = 1; \"", "<?php $a = 1; `", "<?php trait T extends A implements B {}", "<?php foreach($a as &$k=>$v) if(1){} \x01 ;",
 	"<?php\necho 1;\r\necho 2;\recho 3;\n\n\r\r\n\r\n\n/* a\r\nb\rc\nd */\r'x\r\ny\rz';\r\n\"p\r\n$q\rr\";\n<<<A\r\n l1\r l2\n\r\nA;\r\n?>\r\nhtml\r\nmore\r<?php ?>\r<?php ?>\n",
 }
 
